@@ -273,6 +273,12 @@ func judge(t *testing.T, name string, sub *lab.SubCheck, cases []Case, res []Res
 		if name == "request-kinds-enumerated" && len(c.Steps) == 1 {
 			nontrivial = kindOf(c.Steps[0].Kind) != "get" // the rule of that sub-check
 		}
+		if name == "recovery-through-the-recovered-backend-enumerated" {
+			nontrivial = c.Swap // the rule of that sub-check
+		}
+		if name == "concurrent-good-traffic-around-faults-enumerated" {
+			nontrivial = len(c.Steps) >= 2 // the rule of that sub-check: the composition is repeated
+		}
 		if name == "mid-body-faults-by-framing-enumerated" {
 			nontrivial = false // the rule of that sub-check: the fault reached its target
 			for _, l := range r.Labels {
@@ -742,6 +748,158 @@ func TestC03WindowExpiry(t *testing.T) {
 		for j := 0; j < n; j++ {
 			gi := uint64(lab.Shard() + j*lab.Shards())
 			c := genExpiry().Example(int(mix(base+uint64(j)) >> 2))
+			c.Cfg.Strategy = Strategies[(gi+lab.Seed())%5]
+			cases = append(cases, c)
+		}
+	}
+	res := runAll(t, cases)
+	judge(t, name, sub, cases, res, replay)
+}
+
+// recoveredCases is the complete table health-check configuration x fault (x "also on the health endpoint"
+// for the faults an active probe can meet, in the cells with active checks), every case with the roles
+// swapped for the recovery phase.
+func recoveredCases() []Case {
+	var out []Case
+	i := 0
+	add := func(cell struct{ Passive, Omitted, Active bool }, f string, healthToo bool) {
+		h := mix(lab.Seed()*1000411 + uint64(i))
+		c := Case{Swap: true, Cfg: Cfg{Strategy: Strategies[(uint64(i)+lab.Seed())%5], FaultyFirst: h&1 == 1, Limiter: h&2 != 0, Plugins: h&16 != 0,
+			Passive: cell.Passive, PassiveTimeoutOmitted: cell.Omitted, Active: cell.Active,
+			Idle: []int{1, 5}[(h>>21)&1], Handler: 1 + int((h>>12)%3), BackendRead: 1 + int((h>>16)%3)}}
+		if h&32 != 0 {
+			c.Cfg.Breaker = 2 + int((h>>6)%3)
+			c.Cfg.BreakerInterval = []int{1, 60}[(h>>20)&1]
+		}
+		s := Step{Fault: f, Kind: Kinds[(uint64(i)+lab.Seed())%uint64(len(Kinds))], Concurrent: 4 + int((h>>8)%5), Framing: pickFraming(f, h>>22), HealthToo: healthToo}
+		if (h>>26)%4 == 0 {
+			s.Concurrent = 0
+		}
+		if c.Cfg.Strategy == "least_connections" {
+			c.Cfg.FaultyFirst = true // an idle least_connections pool always picks the backend listed first
+		}
+		c.Steps = []Step{s}
+		out = append(out, c)
+		i++
+	}
+	for _, cell := range HealthCells {
+		for _, f := range Faults {
+			add(cell, f, false)
+			if cell.Active && probeFault(f) {
+				add(cell, f, true)
+			}
+		}
+	}
+	return out
+}
+
+func TestC03RecoveredBackend(t *testing.T) {
+	t.Parallel()
+	const name = "recovery-through-the-recovered-backend-enumerated"
+	sub := lab.Sub(name, "complete enumeration: health-check configuration {passive on (unhealthy_timeout 1 s), passive off with unhealthy_timeout 1 still written, passive off with unhealthy_timeout left out (= 0; internal/config rejects that while passive checks are on)} x active checks {off, on: interval 2 s, timeout 1 s} "+
+		"x each of the 9 faults, and in the three cells with active checks additionally the 4 faults an active probe can meet {refuse, hang-headers, 5xx, garbage} played on EVERYTHING the FAULTY backend receives - its health endpoint included - and held for 2.3 s (longer than the active-check interval, so that a probe tick falls into it; class probe-failure-of-FAULTY-logged) = 66 cases; "+
+		"one fault step each (3 in 4 a concurrent burst of 4-8, else 4 sequential requests), request kind, strategy (least_connections: FAULTY listed first), framing, breaker, limiter, plugin chain, backend order, timeouts: pure function of seed and table index. "+
+		"Recovery phase with the ROLES SWAPPED: when the fault step is over FAULTY answers 200 to every request and every health probe for good and the backend that was GOOD throughout refuses connections; "+swapText+"; then GOOD comes back and clauses (ii)-(iv) follow as everywhere; everything twice per helios process; "+oracleText+
+		"; every case is non-trivial (the only healthy backend is the one that misbehaved)")
+	sub.NontrivialFloor(1.0)
+	sub.Floor("fault-delivered", 0.85)
+	sub.Floor("recovered-backend-serves", 0.90)
+	sub.Floor("probe-failure-of-FAULTY-logged", 0.12) // 12 of the 66 cases hold the fault across a probe tick
+	runTable(t, name, sub, recoveredCases, workers())
+}
+
+const swapText = "clause (ii) then reads: polling from fresh client addresses, 3 requests must have been answered 200 BY THE RECOVERED BACKEND within the time the case's configuration documents for it to come back (max of: passive window 1 s, probe timeout 1 s + what a failed probe ejects for = the written unhealthy_timeout or 0, breaker timeout 1 s; 0 s when none is configured) + 8 s scheduling allowance; " +
+	"no run of consecutive successes is demanded (the refusing backend keeps producing 502s, which may re-open the breaker, and without health checks nothing ejects it), and when /v1/backends reports the recovered backend as healthy but Helios did not choose it often enough there is no verdict (class recovered-backend-not-chosen); " +
+	"'permanently degraded' is reported when /v1/backends has shown the recovered backend as ejected without interruption for the last 8 s of that window"
+
+// goodTrafficCases is the complete table fault x composition of faulted and successful concurrent traffic x
+// passive unhealthy_threshold class.
+func goodTrafficCases() []Case {
+	var out []Case
+	i := 0
+	for _, f := range Faults {
+		for _, comp := range []string{"mixed", "followed"} {
+			for _, highThreshold := range []bool{false, true} {
+				h := mix(lab.Seed()*1000507 + uint64(i))
+				c := Case{Cfg: Cfg{Strategy: Strategies[(uint64(i)+lab.Seed())%5], FaultyFirst: h&1 == 1, Limiter: h&2 != 0, Plugins: h&16 != 0,
+					Passive: (h>>30)%8 != 0, Active: h&8 != 0, PassiveThreshold: 2,
+					Idle: []int{1, 5}[(h>>21)&1], Handler: 1 + int((h>>12)%3), BackendRead: 1 + int((h>>16)%3)}}
+				if highThreshold {
+					c.Cfg.PassiveThreshold = 50
+				}
+				if !c.Cfg.Passive {
+					c.Cfg.PassiveTimeoutOmitted = (h>>34)&1 == 1
+				}
+				if h&32 != 0 {
+					c.Cfg.Breaker = 2 + int((h>>6)%5)
+					c.Cfg.BreakerInterval = []int{1, 60}[(h>>20)&1]
+				}
+				kind := []string{"get", "get", "post-cl", "head", "upgrade-websocket", "expect-continue"}[(uint64(i)/4+lab.Seed())%6]
+				fault := Step{Fault: f, Kind: kind, Concurrent: 2 + int((h>>8)%5), Framing: pickFraming(f, h>>22)}
+				rounds := 3
+				if f == "hang-headers" || f == "slow-body" {
+					rounds = 2 // the faults that only a timeout ends
+				}
+				for r := 0; r < rounds; r++ {
+					hr := mix(h + uint64(r))
+					if comp == "mixed" {
+						st := fault
+						st.Good = 8 + int(hr%17)
+						c.Steps = append(c.Steps, st)
+					} else {
+						c.Steps = append(c.Steps, fault, Step{Fault: GoodBurst, Kind: kind, Concurrent: 8 + int(hr%25)})
+					}
+				}
+				out = append(out, c)
+				i++
+			}
+		}
+	}
+	return out
+}
+
+func TestC03GoodTraffic(t *testing.T) {
+	t.Parallel()
+	const name = "concurrent-good-traffic-around-faults-enumerated"
+	sub := lab.Sub(name, "complete enumeration: each of the 9 faults x composition {mixed: one synchronised concurrent burst holds 2-6 requests that carry the fault on FAULTY AND 8-24 requests that both backends answer well; followed: a concurrent faulted burst of 2-6, then at once a synchronised concurrent burst of 8-32 requests that both backends answer well} "+
+		"x passive unhealthy_threshold {2, 50 (never reached: FAULTY stays in rotation with counted failures)}; the composition is played 3 times in a row (2 times for the faults only a timeout ends), all of it twice per helios process; passive checks on in 7 of 8 cases, request kind, strategy, framing, breaker (threshold 2-6), limiter, active checks, plugin chain, backend order, timeouts: pure function of seed and table index; "+
+		"in a synchronised burst every client opens its connection and waits, then all write their request at the same instant: successful responses of a backend finish side by side with, and immediately after, its faulted ones; no status is demanded of the well-behaved requests (the fault may have opened the breaker or ejected a backend), clause (i) applies to each of them; "+oracleText+
+		"; every case is non-trivial (the composition is repeated: >= 2 steps)")
+	sub.NontrivialFloor(1.0)
+	sub.Floor("fault-delivered", 0.85)
+	sub.Floor("passive-on", 0.70)
+	sub.Floor("good-burst:all-succeeded", 0.25) // half of the table has good bursts; they are answered when nothing is open or ejected
+	runTable(t, name, sub, goodTrafficCases, workers())
+}
+
+func TestC03FlakyLoad(t *testing.T) {
+	t.Parallel()
+	const name = "flaky-backend-under-concurrent-load"
+	sub := lab.Sub(name, "sampled: a FLAKY backend under concurrent load: FAULTY (listed under 1-8 backend names, each with its own health state) answers 5xx to one request in 2-5 (by client number + request number) and 200 to all others and to every health probe, GOOD answers 200; "+
+		"16-64 keep-alive clients for 3 s (thorough: 3-5 s), 3 in 4 cases all in synchronised volleys (10 a second; every client has its connection open, waits at a barrier, all write at the same instant), else half of them free-running; passive checks on in 7 of 8 cases with unhealthy_threshold 2, 3, 5 or 50 "+
+		"(50: hardly ever reached, counted failures and successes of one backend alternate for the whole burst), off: unhealthy_timeout written or left out; breaker and limiter off (a breaker would answer most of the burst itself); strategy rotating over all five by case index; active checks, plugin chain (1 in 4), backend order, handler and backend_read timeout drawn; "+
+		"clause (i) for every single request of the burst, then (ii)-(iv) as everywhere; played twice per helios process; "+oracleText+"; every case is non-trivial")
+	sub.NontrivialFloor(1.0)
+	sub.Floor("fault-delivered", 0.90)
+	sub.Floor("flaky:5xx-and-200-from-the-same-backend", 0.90)
+	assumptions()
+	var rc Case
+	replay := lab.ReplayCase(name, &rc)
+	if lab.Replaying() && !replay {
+		t.Skip("replay of another sub-check")
+	}
+	var cases []Case
+	if replay {
+		cases = []Case{rc}
+	} else {
+		n := lab.Share(lab.Scale(8, 48))
+		if n*lab.Shards() < lab.Scale(8, 48) {
+			n++
+		}
+		base := lab.SubSeed(name)
+		for j := 0; j < n; j++ {
+			gi := uint64(lab.Shard() + j*lab.Shards())
+			c := genFlaky().Example(int(mix(base+uint64(j)) >> 2))
 			c.Cfg.Strategy = Strategies[(gi+lab.Seed())%5]
 			cases = append(cases, c)
 		}
